@@ -353,10 +353,10 @@ impl BuiltInFunction {
                 };
 
                 {
-                    let mut v_original = v_original_shared.0.borrow_mut();
-                    let mut v_add = v_add.0.borrow_mut();
+                    // the argument keeps its elements, and can be the receiver itself
+                    let added: Vec<Primitive> = v_add.0.borrow().clone();
 
-                    v_original.append(v_add.as_mut());
+                    v_original_shared.0.borrow_mut().extend(added);
                 }
 
                 Ok((Some(Primitive::Vector(v_original_shared.clone())), None))
